@@ -18,18 +18,19 @@ CONSTANTS Unparkers,      \* set of unparker ids
           MaxNow,         \* clock bound
           WithCancel,     \* BOOLEAN: is there a canceller
           CheckCancel,    \* BOOLEAN: Park.check_cancel (FALSE for SyncBlocker's parks)
-          Recheck         \* BOOLEAN: TRUE = code as written; FALSE = mutant w/o state re-check
+          Recheck,        \* BOOLEAN: TRUE = code as written; FALSE = mutant w/o state re-check
+          Fix6            \* BOOLEAN: FALSE = pinned tree; TRUE = repaired: the deadline is re-checked after the coroutine is published
 
 VARIABLES state, waitCo, waitKernel, timeoutReg, handle, timers, nextId, now,
           cancelBit, cancelCo, para,
           co,            \* "user" | "switching" | "slot" | "queued" | "nested" | "dead"
           pcP, phase, round, rets,   \* user side
-          pcK, kreg,                 \* kernel side
+          pcK, kreg, deadline,       \* kernel side (deadline: when the armed timer is due, 0 = none)
           pcU, pcC, creg,
           owed           \* ghost: an unpark not yet absorbed by a check_park
 
 vars == <<state, waitCo, waitKernel, timeoutReg, handle, timers, nextId, now,
-          cancelBit, cancelCo, para, co, pcP, phase, round, rets, pcK, kreg,
+          cancelBit, cancelCo, para, co, pcP, phase, round, rets, pcK, kreg, deadline,
           pcU, pcC, creg, owed>>
 
 Running == co \in {"user", "nested"}
@@ -39,7 +40,7 @@ Init ==
   /\ handle = 0 /\ timers = {} /\ nextId = 1 /\ now = 0
   /\ cancelBit = FALSE /\ cancelCo = FALSE /\ para = "none"
   /\ co = "user" /\ pcP = "park.check_load" /\ phase = "pre" /\ round = 1 /\ rets = <<>>
-  /\ pcK = "idle" /\ kreg = 0
+  /\ pcK = "idle" /\ kreg = 0 /\ deadline = 0
   /\ pcU = [u \in Unparkers |-> "unpark.swap"]
   /\ pcC = (IF WithCancel THEN "cancel.set_bit" ELSE "done")
   /\ creg = FALSE
@@ -47,7 +48,7 @@ Init ==
 
 -----------------------------------------------------------------------------
 (* user side *)
-UNCH_K == UNCHANGED <<pcK, kreg>>
+UNCH_K == UNCHANGED <<pcK, kreg, deadline>>
 UNCH_O == UNCHANGED <<pcU, pcC, creg>>
 
 Return(kind) ==   \* park_timeout returns `kind`
@@ -120,7 +121,7 @@ PYield ==
                       /\ UNCHANGED <<co, rets, round>>
             /\ UNCH_K
        ELSE /\ co' = "switching" /\ pcP' = "yield.back" /\ pcK' = "sub.take_timeout"
-            /\ UNCHANGED <<para, phase, rets, round, kreg>>
+            /\ UNCHANGED <<para, phase, rets, round, kreg, deadline>>
   /\ UNCHANGED <<state, waitCo, waitKernel, timeoutReg, handle, timers, nextId, now,
                  cancelBit, cancelCo, owed>>
   /\ UNCH_O
@@ -169,6 +170,7 @@ UNCH_P == UNCHANGED <<pcP, phase, round, rets>>
 KTakeTimeout ==
   /\ KStep("sub.take_timeout", IF timeoutReg > 0 THEN "sub.add_timer" ELSE "sub.set_handle")
   /\ kreg' = timeoutReg /\ timeoutReg' = 0
+  /\ deadline' = (IF timeoutReg > 0 THEN now + timeoutReg ELSE 0)
   /\ UNCHANGED <<state, waitCo, waitKernel, handle, timers, nextId, now,
                  cancelBit, cancelCo, para, co, owed>>
   /\ UNCH_P /\ UNCH_O
@@ -176,14 +178,14 @@ KTakeTimeout ==
 KAddTimer ==
   /\ KStep("sub.add_timer", "sub.set_handle")
   /\ timers' = timers \cup {[id |-> nextId, at |-> now + kreg]}
-  /\ kreg' = nextId /\ nextId' = nextId + 1
+  /\ kreg' = nextId /\ nextId' = nextId + 1 /\ UNCHANGED deadline
   /\ UNCHANGED <<state, waitCo, waitKernel, timeoutReg, handle, now,
                  cancelBit, cancelCo, para, co, owed>>
   /\ UNCH_P /\ UNCH_O
 
 KSetHandle ==
   /\ KStep("sub.set_handle", "sub.kernel_on")
-  /\ handle' = kreg /\ kreg' = 0
+  /\ handle' = kreg /\ kreg' = 0 /\ UNCHANGED deadline
   /\ UNCHANGED <<state, waitCo, waitKernel, timeoutReg, timers, nextId, now,
                  cancelBit, cancelCo, para, co, owed>>
   /\ UNCH_P /\ UNCH_O
@@ -192,20 +194,32 @@ KKernelOn ==
   /\ KStep("sub.kernel_on", "sub.store_co")
   /\ waitKernel' = TRUE
   /\ UNCHANGED <<state, waitCo, timeoutReg, handle, timers, nextId, now,
-                 cancelBit, cancelCo, para, co, kreg, owed>>
+                 cancelBit, cancelCo, para, co, kreg, deadline, owed>>
   /\ UNCH_P /\ UNCH_O
 
 KStoreCo ==
   /\ KStep("sub.store_co", IF Recheck THEN "sub.recheck_state" ELSE "sub.set_cancel_co")
   /\ waitCo' = TRUE /\ co' = "slot"
   /\ UNCHANGED <<state, waitKernel, timeoutReg, handle, timers, nextId, now,
-                 cancelBit, cancelCo, para, kreg, owed>>
+                 cancelBit, cancelCo, para, kreg, deadline, owed>>
   /\ UNCH_P /\ UNCH_O
 
 KRecheckState ==
-  /\ KStep("sub.recheck_state", IF state THEN "sub.fast_take" ELSE "sub.set_cancel_co")
+  /\ KStep("sub.recheck_state", IF state THEN "sub.fast_take" ELSE IF Fix6 THEN "sub.recheck_timeout" ELSE "sub.set_cancel_co")
   /\ UNCHANGED <<state, waitCo, waitKernel, timeoutReg, handle, timers, nextId, now,
-                 cancelBit, cancelCo, para, co, kreg, owed>>
+                 cancelBit, cancelCo, para, co, kreg, deadline, owed>>
+  /\ UNCH_P /\ UNCH_O
+
+(* repaired tree (F6): the timer may have fired into the still empty slot; if its deadline has passed,
+   take the coroutine back and resume it with TimedOut on this stack *)
+KRecheckTimeout ==
+  /\ pcK = "sub.recheck_timeout"
+  /\ IF deadline > 0 /\ now >= deadline
+       THEN /\ pcK' = "sub.kernel_off"
+            /\ IF waitCo THEN waitCo' = FALSE /\ para' = "timeout" /\ co' = "nested" ELSE UNCHANGED <<waitCo, para, co>>
+       ELSE pcK' = "sub.set_cancel_co" /\ UNCHANGED <<waitCo, para, co>>
+  /\ UNCHANGED <<state, waitKernel, timeoutReg, handle, timers, nextId, now,
+                 cancelBit, cancelCo, kreg, deadline, owed>>
   /\ UNCH_P /\ UNCH_O
 
 (* fast_wake_up(): take the slot and run the coroutine *on this stack* *)
@@ -213,28 +227,28 @@ KFastTake ==
   /\ KStep("sub.fast_take", "sub.kernel_off")
   /\ IF waitCo THEN waitCo' = FALSE /\ co' = "nested" ELSE UNCHANGED <<waitCo, co>>
   /\ UNCHANGED <<state, waitKernel, timeoutReg, handle, timers, nextId, now,
-                 cancelBit, cancelCo, para, kreg, owed>>
+                 cancelBit, cancelCo, para, kreg, deadline, owed>>
   /\ UNCH_P /\ UNCH_O
 
 KSetCancelCo ==
   /\ KStep("sub.set_cancel_co", "sub.recheck_cancel")
   /\ cancelCo' = TRUE
   /\ UNCHANGED <<state, waitCo, waitKernel, timeoutReg, handle, timers, nextId, now,
-                 cancelBit, para, co, kreg, owed>>
+                 cancelBit, para, co, kreg, deadline, owed>>
   /\ UNCH_P /\ UNCH_O
 
 (* if cancel.is_canceled() { cancel.cancel() }  -- the inline cancel is 2 takes *)
 KRecheckCancel ==
   /\ KStep("sub.recheck_cancel", IF cancelBit THEN "sub.c_take_slot" ELSE "sub.kernel_off")
   /\ UNCHANGED <<state, waitCo, waitKernel, timeoutReg, handle, timers, nextId, now,
-                 cancelBit, cancelCo, para, co, kreg, owed>>
+                 cancelBit, cancelCo, para, co, kreg, deadline, owed>>
   /\ UNCH_P /\ UNCH_O
 
 KCTakeSlot ==
   /\ KStep("sub.c_take_slot", IF cancelCo THEN "sub.c_take_co" ELSE "sub.kernel_off")
   /\ cancelCo' = FALSE
   /\ UNCHANGED <<state, waitCo, waitKernel, timeoutReg, handle, timers, nextId, now,
-                 cancelBit, para, co, kreg, owed>>
+                 cancelBit, para, co, kreg, deadline, owed>>
   /\ UNCH_P /\ UNCH_O
 
 KCTakeCo ==
@@ -242,7 +256,7 @@ KCTakeCo ==
   /\ IF waitCo THEN waitCo' = FALSE /\ para' = "canceled" /\ co' = "queued"
                ELSE UNCHANGED <<waitCo, para, co>>
   /\ UNCHANGED <<state, waitKernel, timeoutReg, handle, timers, nextId, now,
-                 cancelBit, cancelCo, kreg, owed>>
+                 cancelBit, cancelCo, kreg, deadline, owed>>
   /\ UNCH_P /\ UNCH_O
 
 (* the DropGuard: runs when subscribe returns, i.e. not while a nested coroutine runs *)
@@ -250,7 +264,7 @@ KKernelOff ==
   /\ KStep("sub.kernel_off", "idle") /\ co # "nested"
   /\ waitKernel' = FALSE
   /\ UNCHANGED <<state, waitCo, timeoutReg, handle, timers, nextId, now,
-                 cancelBit, cancelCo, para, co, kreg, owed>>
+                 cancelBit, cancelCo, para, co, kreg, deadline, owed>>
   /\ UNCH_P /\ UNCH_O
 
 -----------------------------------------------------------------------------
@@ -317,7 +331,7 @@ Next ==
   \/ PCheckLoad \/ PCheckStore \/ PCheckSwap \/ PSpinYield \/ PSpinPass \/ PStoreTimeout
   \/ PYield \/ PYieldBack \/ PRmHandle \/ PReadPara \/ Resume
   \/ KTakeTimeout \/ KAddTimer \/ KSetHandle \/ KKernelOn \/ KStoreCo \/ KRecheckState
-  \/ KFastTake \/ KSetCancelCo \/ KRecheckCancel \/ KCTakeSlot \/ KCTakeCo \/ KKernelOff
+  \/ KRecheckTimeout \/ KFastTake \/ KSetCancelCo \/ KRecheckCancel \/ KCTakeSlot \/ KCTakeCo \/ KKernelOff
   \/ \E u \in Unparkers : USwap(u) \/ UTake(u)
   \/ TFire \/ Tick \/ CSetBit \/ CTakeSlot \/ CTakeCo
   \/ Stutter
